@@ -288,9 +288,10 @@ def session_witness(lines, badline):
     same = 'na' if owner is None else ('same' if owner == (ln['ip'], ln['agent']) else
                                          'ip' if owner[1] == ln['agent'] else
                                          'agent' if owner[0] == ln['ip'] else 'both')
+    overlap = owner is not None and {owner, (ln['ip'], ln['agent'])} == {('a1', 'du1'), ('a1d', 'u1')}
     names = 'na' if ln['xh'] == 'none' else ('owner' if owner and owner[0] == ln['xa'] else 'other')
     return {'part': 'sessions', 'cookie': ln['fk'], 'differs': same, 'presented_bound_id': ln['ck'] == ln['sid'],
-            'header': ln['xh'], 'header_names': names}
+            'header': ln['xh'], 'header_names': names, 'texts_overlap': overlap}
 
 
 # ---------------------------------------------------------------------------
@@ -370,6 +371,8 @@ def _run(ctx, quick, rnd, pool, ex, X, R):
     jobs['sess_nofp'] = ex.submit(tlc.run_tlc, SPEC, 'Sessions', 'MC_Sessions_nofp.cfg', workers=2)
     jobs['sess_xff'] = ex.submit(tlc.run_tlc, SPEC, 'Sessions', 'MC_Sessions_xffprint.cfg', workers=2)
     jobs['sess_hist'] = ex.submit(dump_session_histories, 'HIST_Sessions.cfg' if quick else 'HIST_Sessions_thorough.cfg', W)
+    jobs['sess_cat'] = ex.submit(tlc.run_tlc, SPEC, 'Sessions', 'MC_Sessions_catprint.cfg', workers=1)
+    jobs['sess_hist_cat'] = ex.submit(dump_session_histories, 'HIST_Sessions_cat.cfg', 2)
     jobs['sess_hist_hdr'] = ex.submit(dump_session_histories, 'HIST_Sessions_hdr.cfg' if quick else 'HIST_Sessions_hdr_thorough.cfg', W)
     jobs['vh_mc'] = ex.submit(tlc.dump_states, SPEC, 'VHost', 'MC_VHost.cfg', workers=2)      # checks the invariants too
     jobs['vh_disc'] = ex.submit(tlc.run_tlc, SPEC, 'VHost', 'MC_VHost_discarded.cfg', workers=1)
@@ -520,7 +523,11 @@ def _run(ctx, quick, rnd, pool, ex, X, R):
     with_hdr = [(h, mout) for h, mout in with_hdr if any(st[5] != 'none' for st in h)]
     if not XNAMES or {st[5] for h, _ in with_hdr for st in h} - {'none'} < (set(XNAMES) if quick else {'xff', 'xfflist', 'xrealip'}):
         raise tlc.MachineryError('vacuous Sessions header histories')
-    maximal = maximal + with_hdr
+    # histories among clients whose address/agent texts overlap (a1 + du1 = a1d + u1 as bare text)
+    if not jobs['sess_cat'].result().violated:
+        raise tlc.MachineryError('the "catprint" variant of Sessions.tla no longer violates C20: the model lost its teeth')
+    cres, with_cat = jobs['sess_hist_cat'].result()
+    maximal = maximal + with_hdr + with_cat
     kinds_seen = set()
     s_failed = []
     straces = []      # (script, lines, origin)
@@ -531,26 +538,27 @@ def _run(ctx, quick, rnd, pool, ex, X, R):
             kinds_seen.add(st[2][0])
             kinds_seen.add('op:' + st[3])
         lines = run_session_script(script, s_failed)
-        straces.append((script, lines, 'tlc-history'))
-        if mout is not None:
-            n_s_cmp += 1
-            if [dict(m) for m in mout] == lines:
-                n_s_match += 1
-            else:
-                ctx.note_drift('session history %s: real lines %s, model lines %s' % (script, lines, mout))
+        straces.append((script, lines, 'tlc-history', mout))
     need = {'none', 'issued', 'selfmade', 'transplant', 'op:r', 'op:w'}
     if not need <= kinds_seen:
         raise tlc.MachineryError('vacuous Sessions histories: never seen %s' % sorted(need - kinds_seen))
     nrand = 400 if quick else 20000
     for i in range(nrand):
         script = random_session_script(rnd, rnd.randint(3, 6 if quick else 9))
-        straces.append((script, run_session_script(script, s_failed), 'random'))
+        straces.append((script, run_session_script(script, s_failed), 'random', None))
     if s_failed:
         ctx.note_drift('Sessions.request raised on %d requests, e.g. %s' % (len(s_failed), s_failed[0]))
     s_verdicts, s_stats = tlc.validate_traces(SPEC, 'SessionsTrace', 'SessionsTrace.cfg', [t[1] for t in straces],
                                               shards=3 if quick else 12, timeout=2400)
     sess_ok = []
-    for k, ((script, lines, origin), (clause, line)) in enumerate(zip(straces, s_verdicts)):
+    for k, ((script, lines, origin, mout), (clause, line)) in enumerate(zip(straces, s_verdicts)):
+        if mout is not None:
+            # the model's lines against the real ones (a rejected trace is reported as a violation, not as drift)
+            n_s_cmp += 1
+            if [dict(m) for m in mout] == lines:
+                n_s_match += 1
+            elif not clause:
+                ctx.note_drift('session history %s: real lines %s, model lines %s' % (script, lines, mout))
         nontrivial = sum(1 for st in script if st[2][0] != 'none') >= 1 and len(lines) >= 2
         ctx.count_case(['sessions', script], nontrivial,
                        sample={'part': 'sessions', 'script': script, 'trace': lines, 'verdict': clause or 'accepted'} if k == len(straces) // 3 else None)
@@ -561,6 +569,7 @@ def _run(ctx, quick, rnd, pool, ex, X, R):
     mark('sess_replay_validate')
     cov['session_histories_from_tlc'] = len(maximal)
     cov['session_histories_with_client_header'] = len(with_hdr)
+    cov['session_histories_overlapping_texts'] = len(with_cat)
     cov['session_histories_random'] = nrand
     cov['session_model_line_exact_match'] = n_s_match
     cov['session_model_line_compared'] = n_s_cmp
@@ -623,7 +632,7 @@ def _run(ctx, quick, rnd, pool, ex, X, R):
         'trace_validation_states': a_stats['states'] + s_stats['states'] + vh_stats['states'],
         'corrupted_traces_rejected': n_muts,
         'pinned_variant_counterexample': pinned.violated,
-        'session_history_dump_states': sres.distinct + hres.distinct,
+        'session_history_dump_states': sres.distinct + hres.distinct + cres.distinct,
         'rule': 'auth: one case per (api, encrypt/table form, method) x credential class, every state TLC dumps for Auth.tla '
                 '(a state is one check on a fresh request object, or that check followed by a second one on the same object '
                 'for an independent realm/table domain), '
